@@ -54,17 +54,22 @@ func (*Mutex) InstanceVariables() *InstanceVariables {
 }
 
 func (m *Mutex) Lock() {
+	vhook("mutex.lock.try", m)
 	m.Native.Lock()
+	vhook("mutex.lock.ok", m)
 }
 
 func (m *Mutex) Unlock() (err Value) {
 	defer func() {
 		if r := recover(); r != nil {
 			err = Ref(NewError(MutexUnlockedErrorClass, "cannot unlock an unlocked mutex"))
+			vhook("mutex.unlock.err", m)
 		}
 	}()
 
+	vhook("mutex.unlock.try", m)
 	m.Native.Unlock()
+	vhook("mutex.unlock.ok", m)
 	return Undefined
 }
 
